@@ -140,6 +140,7 @@ func runScenarioWith(sc scn, seed int64, f *fault, readTimeout time.Duration, ba
 	out := &runOut{}
 	var mu sync.Mutex
 	counts := map[string]int{}
+	frozen := false
 	script := &simnet.Script{Rev: 54460}
 	sim := newSim(script)
 	if seed%2 == 1 {
@@ -217,7 +218,7 @@ func runScenarioWith(sc scn, seed int64, f *fault, readTimeout time.Duration, ba
 			full = fmt.Sprintf("%s#%d", name, n)
 		}
 		out.Gates = append(out.Gates, full)
-		match := f != nil && f.Gate == full && !out.Fired
+		match := f != nil && f.Gate == full && !out.Fired && !frozen
 		if match {
 			out.Fired = true
 			out.FiredAt = int64(len(out.Gates))
@@ -408,6 +409,11 @@ func runScenarioWith(sc scn, seed int64, f *fault, readTimeout time.Duration, ba
 	})
 	out.ReturnWall = time.Now()
 	out.Elapsed = time.Since(start)
+	// the run is over for the oracle: gates reached from here on (e.g. the Cancel write caused by
+	// this function's own deferred cancel) must not count as the planned fault having fired
+	mu.Lock()
+	frozen = true
+	mu.Unlock()
 	if !out.Returned {
 		out.StuckReaders, out.StuckArmed = sim.Conn.BlockedReaders()
 		out.StuckQueue = sim.Conn.QueueLen()
